@@ -493,7 +493,7 @@ def replay(ctx, obj):
             continue
         print("clause %s item %s class %r" % (clause, item, cls))
         ctx.violation(cls if cls else "%s:unexplained" % clause, CLAUSE.get(clause, clause), rp)
-    print("replayed: %s" % ("still violated" if v[1][0] else "accepted by the specification"))
+    print("replayed: %s" % ("still violated" if [x for x in v[1][0] if x[0] != "guard"] else "accepted by the specification"))
 
 
 def selftest(ctx):
